@@ -79,9 +79,10 @@ def ddmin(prop, ops, class_key, budget=300):
     """Delta debugging over ops[1:] preserving the violation's class_key."""
     head, body = ops[0], list(ops[1:])
     tries = [0]
+    t_end = time.time() + float(os.environ.get("SIMLDAP_SHRINK_SECONDS", "45"))
 
     def fails(cand):
-        if tries[0] >= budget:
+        if tries[0] >= budget or time.time() > t_end:
             return False
         tries[0] += 1
         try:
